@@ -321,6 +321,9 @@ it
             &&& forall|c: int| 0 <= c < old(self).colptr@.len() ==>
                     #[trigger] final(self).colptr@[c] == old(self).colptr@[c] + count_row(M.rowval@, c - initcol, M.rowval@.len() as int)
         },
+        // nothing else is written: a slot that is not the destination of an entry of M keeps its row index and value
+        forall|s: int| 0 <= s < old(self).rowval@.len() && fb_free(*old(self), *M, initcol as int, shape, M.rowval@.len() as int, s) ==> #[trigger] final(self).rowval@[s] == old(self).rowval@[s],
+        forall|s: int| 0 <= s < old(self).rowval@.len() && fb_free(*old(self), *M, initcol as int, shape, M.rowval@.len() as int, s) ==> #[trigger] final(self).nzval@[s] == old(self).nzval@[s],
 //@pre
         proof { assert(self.colptr@.len() == self.colptr.len()); assert(self.rowval@.len() == self.rowval.len()); assert(M.rowval@.len() == M.rowval.len()); }
         let ghost nnz = M.rowval@.len() as int;
@@ -595,10 +598,12 @@ impl CscMatrix<F> {
         // (observation O2: the cursor that is advanced is colptr[i], not colptr[i + initcol]; every call site passes 0)
         initcol == 0,
         forall|i: int| 0 <= i < M.n ==> M.colptr@[i] <= #[trigger] M.colptr@[i + 1] <= M.rowval@.len(),
+        // cursor discipline: the columns that receive an entry have a free slot, and no two of them share a cursor
         forall|i: int| 0 <= i < M.n && missing_diag(*M, i) ==> #[trigger] old(self).colptr@[i] < old(self).rowval@.len(),
-        forall|i1: int, i2: int| 0 <= i1 < i2 < M.n ==> #[trigger] old(self).colptr@[i1] != #[trigger] old(self).colptr@[i2],
+        forall|i1: int, i2: int| 0 <= i1 < i2 < M.n && missing_diag(*M, i1) && missing_diag(*M, i2) ==> #[trigger] old(self).colptr@[i1] != #[trigger] old(self).colptr@[i2],
     ensures
         final(self).arrays_ok(), final(self).rowval@.len() == old(self).rowval@.len(), final(self).colptr@.len() == old(self).colptr@.len(),
+        final(self).m == old(self).m, final(self).n == old(self).n,
         colptr_same_except(final(self).colptr@, old(self).colptr@, 0, M.n as int),
         // C11: exactly the columns of M without a diagonal entry receive a structural zero on the diagonal
         forall|i: int| 0 <= i < M.n ==> {
@@ -606,7 +611,7 @@ impl CscMatrix<F> {
             if missing_diag(*M, i) { final(self).colptr@[i] == dest + 1 && final(self).rowval@[dest] == i && final(self).nzval@[dest] == f_zero() }
             else { final(self).colptr@[i] == dest }
         },
-        forall|s: int| 0 <= s < old(self).rowval@.len() && #[trigger] untouched(old(self).colptr@, 0, M.n as int, s)
+        forall|s: int| 0 <= s < old(self).rowval@.len() && #[trigger] untouched_md(old(self).colptr@, *M, M.n as int, s)
             ==> final(self).rowval@[s] == old(self).rowval@[s] && final(self).nzval@[s] == old(self).nzval@[s],
 //@pre
         proof { assert(self.rowval@.len() == self.rowval.len()); }
@@ -616,9 +621,10 @@ it
         invariant
             initcol == 0, it.seq().len() == M.n, range_from_u(it.seq(), 0), M.colptr_ok_u(), M.n <= self.colptr@.len(),
             self.arrays_ok(), self.rowval@.len() == old(self).rowval@.len(), self.colptr@.len() == old(self).colptr@.len(), self.rowval@.len() <= usize::MAX,
+            self.m == old(self).m, self.n == old(self).n,
             forall|k: int| 0 <= k < M.n ==> M.colptr@[k] <= #[trigger] M.colptr@[k + 1] <= M.rowval@.len(),
             forall|k: int| 0 <= k < M.n && missing_diag(*M, k) ==> #[trigger] old(self).colptr@[k] < old(self).rowval@.len(),
-            forall|i1: int, i2: int| 0 <= i1 < i2 < M.n ==> #[trigger] old(self).colptr@[i1] != #[trigger] old(self).colptr@[i2],
+            forall|i1: int, i2: int| 0 <= i1 < i2 < M.n && missing_diag(*M, i1) && missing_diag(*M, i2) ==> #[trigger] old(self).colptr@[i1] != #[trigger] old(self).colptr@[i2],
             colptr_same_except(self.colptr@, old(self).colptr@, 0, M.n as int),
             forall|k: int| it.index@ <= k < M.n ==> #[trigger] self.colptr@[k] == old(self).colptr@[k],
             forall|k: int| 0 <= k < it.index@ ==> {
@@ -626,7 +632,7 @@ it
                 if missing_diag(*M, k) { self.colptr@[k] == dest + 1 && self.rowval@[dest] == k && self.nzval@[dest] == f_zero() }
                 else { self.colptr@[k] == dest }
             },
-            forall|s: int| 0 <= s < old(self).rowval@.len() && #[trigger] untouched(old(self).colptr@, 0, it.index@ as int, s)
+            forall|s: int| 0 <= s < old(self).rowval@.len() && #[trigger] untouched_md(old(self).colptr@, *M, it.index@ as int, s)
                 ==> self.rowval@[s] == old(self).rowval@[s] && self.nzval@[s] == old(self).nzval@[s],
 //@body_start 1
             let ghost rv0 = self.rowval@;
@@ -634,17 +640,17 @@ it
             let ghost ic0 = it.index@ as int;
 //@body_end 1
             proof {
-                assert forall|s: int| 0 <= s < old(self).rowval@.len() && #[trigger] untouched(old(self).colptr@, 0, ic0 + 1, s)
+                assert forall|s: int| 0 <= s < old(self).rowval@.len() && #[trigger] untouched_md(old(self).colptr@, *M, ic0 + 1, s)
                     implies self.rowval@[s] == old(self).rowval@[s] && self.nzval@[s] == old(self).nzval@[s] by {
-                    assert(old(self).colptr@[ic0] != s);
-                    assert(untouched(old(self).colptr@, 0, ic0, s));
+                    assert(missing_diag(*M, ic0) ==> old(self).colptr@[ic0] != s);
+                    assert(untouched_md(old(self).colptr@, *M, ic0, s));
                     assert(rv0[s] == old(self).rowval@[s] && nz0[s] == old(self).nzval@[s]);
                 }
                 assert forall|k: int| 0 <= k < ic0 + 1 implies ({
                     let dest = #[trigger] old(self).colptr@[k] as int;
                     if missing_diag(*M, k) { self.colptr@[k] == dest + 1 && self.rowval@[dest] == k && self.nzval@[dest] == f_zero() }
                     else { self.colptr@[k] == dest } }) by {
-                    if k < ic0 { assert(old(self).colptr@[k] != old(self).colptr@[ic0]); }
+                    if k < ic0 && missing_diag(*M, k) && missing_diag(*M, ic0) { assert(old(self).colptr@[k] != old(self).colptr@[ic0]); }
                 }
             }
 //@end
@@ -997,6 +1003,22 @@ pub open spec fn fill_block_state(K0: CscMatrix<F>, K: CscMatrix<F>, M: CscMatri
                     let d = dest_t(K0, M, initcol as int, j);
                     map[j] == d && K.rowval@[d] == i + initrow && K.nzval@[d] == M.nzval@[j] }
             &&& forall|c: int| 0 <= c < K0.colptr@.len() ==> #[trigger] K.colptr@[c] == K0.colptr@[c] + count_row(M.rowval@, c - initcol, k) })
+    // frame: a slot that is not the destination of one of the first k entries keeps its content
+    &&& forall|s: int| 0 <= s < K0.rowval@.len() && fb_free(K0, M, initcol as int, shape, k, s) ==> #[trigger] K.rowval@[s] == K0.rowval@[s]
+    &&& forall|s: int| 0 <= s < K0.rowval@.len() && fb_free(K0, M, initcol as int, shape, k, s) ==> #[trigger] K.nzval@[s] == K0.nzval@[s]
+}
+pub open spec fn fb_dest(K0: CscMatrix<F>, M: CscMatrix<F>, initcol: int, shape: MatrixShape, i: int, j: int) -> int {
+    if shape == MatrixShape::T { dest_t(K0, M, initcol, j) } else { dest_n(K0, M, initcol, i, j) }
+}
+pub open spec fn fb_free(K0: CscMatrix<F>, M: CscMatrix<F>, initcol: int, shape: MatrixShape, k: int, s: int) -> bool {
+    forall|i: int, j: int| #[trigger] M.in_col_u(j, i) && j < k ==> fb_dest(K0, M, initcol, shape, i, j) != s
+}
+// the cursor of the column that entry jj goes to is exactly its destination slot
+pub proof fn lemma_fb_cursor(K0: CscMatrix<F>, K1: CscMatrix<F>, M: CscMatrix<F>, map1: Seq<usize>, initrow: usize, initcol: usize, shape: MatrixShape, ii: int, jj: int)
+    requires M.colptr_ok_u(), M.in_col_u(jj, ii), fill_block_pre(K0, M, initrow, initcol, shape), fill_block_state(K0, K1, M, map1, initrow, initcol, shape, jj),
+    ensures K1.colptr@[if shape == MatrixShape::T { M.rowval@[jj] + initcol } else { ii + initcol }] == fb_dest(K0, M, initcol as int, shape, ii, jj),
+{
+    if shape == MatrixShape::N { assert(pushed_n(M, ii, jj) == jj - M.colptr@[ii]); }
 }
 // one placement step: entry jj of column ii is written at the cursor of its destination column
 pub proof fn lemma_fill_block_step(K0: CscMatrix<F>, K1: CscMatrix<F>, K2: CscMatrix<F>, M: CscMatrix<F>, map1: Seq<usize>, map2: Seq<usize>,
@@ -1014,6 +1036,17 @@ pub proof fn lemma_fill_block_step(K0: CscMatrix<F>, K1: CscMatrix<F>, K2: CscMa
            &&& map2 == map1.update(jj, d as usize) && K2.colptr@ == K1.colptr@.update(col, (d + 1) as usize) }),
     ensures fill_block_state(K0, K2, M, map2, initrow, initcol, shape, jj + 1),
 {
+    let dcur = K1.colptr@[if shape == MatrixShape::T { M.rowval@[jj] + initcol } else { ii + initcol }] as int;
+    assert forall|s: int| 0 <= s < K0.rowval@.len() && fb_free(K0, M, initcol as int, shape, jj + 1, s) implies #[trigger] K2.rowval@[s] == K0.rowval@[s] by {
+        assert(fb_dest(K0, M, initcol as int, shape, ii, jj) != s);
+        assert(fb_free(K0, M, initcol as int, shape, jj, s));
+        lemma_fb_cursor(K0, K1, M, map1, initrow, initcol, shape, ii, jj);
+    }
+    assert forall|s: int| 0 <= s < K0.rowval@.len() && fb_free(K0, M, initcol as int, shape, jj + 1, s) implies #[trigger] K2.nzval@[s] == K0.nzval@[s] by {
+        assert(fb_dest(K0, M, initcol as int, shape, ii, jj) != s);
+        assert(fb_free(K0, M, initcol as int, shape, jj, s));
+        lemma_fb_cursor(K0, K1, M, map1, initrow, initcol, shape, ii, jj);
+    }
     if shape == MatrixShape::N {
         let col = ii + initcol;
         let d = K1.colptr@[col] as int;
@@ -1059,6 +1092,10 @@ pub proof fn lemma_fill_block_step(K0: CscMatrix<F>, K1: CscMatrix<F>, K2: CscMa
 // the values produced by the range offset..offset+blockdim
 pub open spec fn col_is(sq: Seq<usize>, offset: int) -> bool { forall|k: int| 0 <= k < sq.len() ==> #[trigger] sq[k] == offset + k }
 // column i of M (square, upper triangular) has no stored diagonal entry: it is empty or its last row index is not i
+// slot s is not the cursor of any column below hi that lacks a diagonal entry
+pub open spec fn untouched_md(cur: Seq<usize>, M: CscMatrix<F>, hi: int, s: int) -> bool {
+    forall|c: int| 0 <= c < hi && missing_diag(M, c) ==> #[trigger] cur[c] != s
+}
 pub open spec fn missing_diag(M: CscMatrix<F>, i: int) -> bool {
     M.colptr@[i] == M.colptr@[i + 1] || M.rowval@[M.colptr@[i + 1] - 1] != i
 }
